@@ -55,6 +55,19 @@ where
         }
     }
 
+    /// Verification hook: the plan that is really executed (waits for a
+    /// dispatch in flight first).
+    #[cfg(feature = "verif-hooks")]
+    pub fn verif_layout(&mut self) -> crate::dispatch::VerifLayout {
+        let thread_local = crate::dispatch::dispatcher::verif_thread_local(&self.thread_local);
+        let inner = self.data.inner();
+
+        crate::dispatch::VerifLayout {
+            stages: inner.stages.iter().map(|s| s.verif_layout()).collect(),
+            thread_local,
+        }
+    }
+
     /// Dispatches the systems asynchronously.
     /// Does not execute thread local systems.
     ///
